@@ -17,6 +17,7 @@ The handshake.Machine is NOT modelled here: its completed result is an input (`C
 Regenerated from the source on every run: MaxHostInfosPerVpnIp, maxCachedPackets, hsTimeout.
 -/
 import Nebula.Gen.HsManager
+import Nebula.Model.ConnMgr
 
 namespace Nebula.HsManager
 open Nebula.Gen
@@ -44,6 +45,8 @@ structure HostInfo where
   remote : Option UNode
   pkt0 : Option Handle
   pkt2 : Option Handle
+  myVer : Nat := 0        -- version of OUR certificate this tunnel was built with (ConnectionState.myCert)
+  certId : Nat := 0       -- identity (fingerprint) of the verified peer certificate
   deriving Repr, DecidableEq, Inhabited
 
 structure HostMap where
@@ -181,6 +184,12 @@ def LH.refresh (lh : LH) (id : Nat) : LH :=
   let r := lh.get id
   lh.put id { r with bad := [] }
 
+/-- DeleteVpnAddrs -/
+def LH.deleteVpnAddrs (lh : LH) (all : List Addr) : LH :=
+  match alookup (all.headD 0) lh.addrMap with
+  | none => lh
+  | some rm => { lh with addrMap := lh.addrMap.filter (fun (a, id) => !(all.contains a && id == rm)) }
+
 /-! ### timer wheel (TimerWheel[handshakeTimer], times in ns). An item is (overlay address, identity of the
 pending handshake the entry was armed for). -/
 
@@ -248,6 +257,8 @@ structure Pending where
   pkt0 : Option Handle := none
   store : List Cached := []
   offered : List Cached := []      -- ghost: every packet handed to cachePacket for this handshake, in order
+  ver : Nat := 0                   -- certificate version the first packet was built with
+  verOverride : Nat := 0           -- initiatingVersionOverride (0 = none)
   remotes : Option Nat := none
   lastRemotes : List UNode := []
   deriving Repr, DecidableEq, Inhabited
@@ -299,6 +310,8 @@ structure Node where
   cfg : Cfg
   main : HostMap := {}
   p : PSide
+  pdl : List Nat := []        -- identities of the tunnels marked pendingDeletion by the connection manager
+  blocked : List Nat := []    -- certificate identities on pki.blocklist (after config reloads)
   deriving Repr, DecidableEq, Inhabited
 
 def Node.init (c : Cfg) : Node :=
@@ -368,16 +381,22 @@ def PSide.allocIndex (c : Cfg) (mainIdx : List (Nat × HostInfo)) : Nat → PSid
     if (alookup v n'.pindexes).isNone && (alookup v mainIdx).isNone then (n', some v)
     else PSide.allocIndex c mainIdx f n'
 
+/-- the certificate version buildStage0Packet uses: the override (tryRehandshake), else the default, raised to 2
+for an IPv6 peer -/
+def stage0Version (c : Cfg) (hh : Pending) : Nat :=
+  if hh.verOverride != 0 then hh.verOverride
+  else if c.defaultVer < 2 && is6 hh.vpnAddr then 2 else c.defaultVer
+
 /-- buildStage0Packet: certificate version choice, Machine creation, index allocation, Initiate. -/
 def PSide.buildStage0 (c : Cfg) (mainIdx : List (Nat × HostInfo)) (n : PSide) (hh : Pending) (now : Nat) :
     PSide × Pending × Out × Bool :=
-  let v := if c.defaultVer < 2 && is6 hh.vpnAddr then 2 else c.defaultVer
+  let v := stage0Version c hh
   if !c.hasVer v then (n, hh, {}, false) else
   match n.allocIndex c mainIdx 32 with
   | (n1, none) => (n1, hh, {}, false)
   | (n1, some idx) =>
     let (n2, h) := n1.freshHandle c
-    let hh' := { hh with localIndex := idx, pkt0 := some h, ready := true }
+    let hh' := { hh with localIndex := idx, pkt0 := some h, ready := true, ver := v }
     ({ n2 with pindexes := ainsert idx hh.id n2.pindexes }, hh', { made := [.s1 h idx now v] }, true)
 
 /-- the stage-1 packet goes to every remote of the list (nothing if the list is empty) -/
@@ -443,6 +462,7 @@ structure Completed where
   certVer : Nat
   remoteIndex : Nat
   time : Nat
+  certId : Nat := 0       -- identity (fingerprint) of the verified certificate
   deriving Repr, DecidableEq, Inhabited
 
 inductive CacErr | alreadySeen (h : HostInfo) | existing (h : HostInfo) | collision
@@ -468,7 +488,7 @@ def checkAndComplete (main : HostMap) (pindexes : List (Nat × Nat)) (hi : HostI
 
 /-- the pending-side effects of beginHandshake up to CheckAndComplete: the Machine's response (one index
 drawn, one packet made), the lighthouse cache lookup, SetRemote; and the candidate hostinfo -/
-def PSide.prepareResponder (cfg : Cfg) (p : PSide) (via : UNode) (pkt : Handle) (c : Completed) :
+def PSide.prepareResponder (cfg : Cfg) (p : PSide) (via : UNode) (pkt : Handle) (c : Completed) (myVer : Nat) :
     PSide × HostInfo × Nat :=
   let (p, li) := p.genIndex cfg 8
   let (p, h2) := p.freshHandle cfg
@@ -476,7 +496,7 @@ def PSide.prepareResponder (cfg : Cfg) (p : PSide) (via : UNode) (pkt : Handle) 
   let lh := lh.learn rid (c.certAddrs.headD 0) via
   let hi : HostInfo := { id := p.nextObj, vpnAddrs := c.certAddrs, localIndex := li, remoteIndex := c.remoteIndex,
                          hsTime := c.time, initiator := false, certVer := c.certVer, remote := some via,
-                         pkt0 := some pkt, pkt2 := some h2 }
+                         pkt0 := some pkt, pkt2 := some h2, myVer := myVer, certId := c.certId }
   ({ p with lh := lh, nextObj := p.nextObj + 1 }, hi, rid)
 
 /-- validatePeerCert (the remote allow list of the harness allows everything) -/
@@ -494,7 +514,7 @@ def Node.beginHandshake (n : Node) (via : UNode) (pkt : Handle) (res : Option Co
       -- the Machine had already built its response: one index drawn, one handle used
       ({ n with p := ((n.p.genIndex n.cfg 8).1.freshHandle n.cfg).1 }, {})
     else
-    let (p, hi, rid) := n.p.prepareResponder n.cfg via pkt c
+    let (p, hi, rid) := n.p.prepareResponder n.cfg via pkt c respVer
     match checkAndComplete n.main p.pindexes hi with
     | some (.alreadySeen ex) =>
       match ex.pkt2 with
@@ -515,7 +535,8 @@ inductive S2Res
 /-- the tunnel an initiator installs when its pending handshake `hh` completes with result `c` -/
 def initiatorHostInfo (hh : Pending) (via : UNode) (c : Completed) : HostInfo :=
   { id := hh.id, vpnAddrs := c.certAddrs, localIndex := hh.localIndex, remoteIndex := c.remoteIndex,
-    hsTime := c.time, initiator := true, certVer := c.certVer, remote := some via, pkt0 := hh.pkt0, pkt2 := none }
+    hsTime := c.time, initiator := true, certVer := c.certVer, remote := some via, pkt0 := hh.pkt0, pkt2 := none,
+    myVer := hh.ver, certId := c.certId }
 
 /-- continueHandshake for the pending handshake registered under `idx`; `res` is what
 Machine.ProcessPacket returned. -/
@@ -575,6 +596,44 @@ def Node.deleteTunnel (n : Node) (li : Nat) : Node × String :=
   | none => (n, "none")
   | some hi => ({ n with main := n.main.deleteHostInfo hi }, if n.main.deleteIsFinal hi then "final" else "more")
 
+/-- what makeTrafficDecision reads for a tunnel (C30's model of the function is `ConnMgr.trafficDecision`) -/
+def Node.checkIn (n : Node) (hi : HostInfo) (inT outT : Bool) : Nebula.ConnMgr.In :=
+  { found := true,
+    cert := if n.blocked.contains hi.certId then .blocklisted else .ok,
+    disconnectInvalid := false, hasCS := true, counter := 0,
+    isMain := match n.main.primary (hi.vpnAddrs.headD 0) with
+      | some p => p.id == hi.id
+      | none => true,
+    inT := inT, outT := outT, pd := n.pdl.contains hi.id, dropInactive := false, idle := 0, timeout := 0,
+    swap := Nebula.ConnMgr.shouldSwapPrimary (decide (hi.vpnAddrs.headD 0 < n.cfg.myAddrs.headD 0)) 0 true true }
+
+/-- doTrafficCheck for the tunnel with local index `li`; returns the node, the decision's name and the output -/
+def Node.trafficCheck (n : Node) (li : Nat) (inT outT : Bool) : Node × String × Out :=
+  match alookup li n.main.indexes with
+  | none => (n, "none", {})
+  | some hi =>
+    let o := Nebula.ConnMgr.trafficDecision (n.checkIn hi inT outT)
+    let pdl := if o.pd then (if n.pdl.contains hi.id then n.pdl else hi.id :: n.pdl) else n.pdl.filter (· != hi.id)
+    let n := { n with pdl := pdl }
+    let gone (n : Node) : Node :=
+      let final := n.main.deleteIsFinal hi
+      let n := { n with main := n.main.deleteHostInfo hi }
+      if final then { n with p := { n.p with lh := n.p.lh.deleteVpnAddrs hi.vpnAddrs } } else n
+    match o.decision with
+    | .deleteTunnel => (gone n, "deleteTunnel", {})
+    | .closeTunnel =>
+      (gone n, "closeTunnel", { tx := match hi.remote with | some u => [.close u] | none => [] })
+    | .swapPrimary => ({ n with main := n.main.makePrimary hi }, "swapPrimary", {})
+    | .tryRehandshake =>
+      -- tryRehandshake: our certificate version is below the peer's and we hold one of the peer's version
+      if hi.myVer < hi.certVer && n.cfg.hasVer hi.certVer then
+        ({ n with p := n.p.startHandshake n.cfg (hi.vpnAddrs.headD 0) (fun hh => { hh with verOverride := hi.certVer }) },
+         "tryRehandshake", {})
+      else (n, "tryRehandshake", {})
+    | .migrateRelays => (n, "migrateRelays", {})
+    | .sendTestPacket => (n, "sendTestPacket", {})
+    | .doNothing => (n, "doNothing", {})
+
 /-! ### events: one node's history -/
 
 inductive Ev
@@ -589,6 +648,8 @@ inductive Ev
   | idx (v : Nat)
   | del (li : Nat)
   | swap (li : Nat)
+  | cmcheck (li : Nat) (inT outT : Bool)            -- connection manager doTrafficCheck with the given traffic flags
+  | block (certIds : List Nat)                      -- config reload: these certificates go on pki.blocklist
   deriving Repr, DecidableEq, Inhabited
 
 def Node.step (n : Node) : Ev → Node × Out
@@ -605,6 +666,8 @@ def Node.step (n : Node) : Ev → Node × Out
   | .idx v => ({ n with p := { n.p with idxQ := n.p.idxQ ++ [v] } }, {})
   | .del li => ((n.deleteTunnel li).1, {})
   | .swap li => ((n.swapCheck li).1, {})
+  | .cmcheck li inT outT => let r := n.trafficCheck li inT outT; (r.1, r.2.2)
+  | .block ids => ({ n with blocked := n.blocked ++ ids }, {})
 
 def Node.run (n : Node) (evs : List Ev) : Node := evs.foldl (fun n e => (n.step e).1) n
 
